@@ -217,6 +217,27 @@ import os as _os
 INCLUDE_RVALUE_DESCENDANT = _os.environ.get("VERIF_VALUE_RVALUE_DESCENDANT", "1") == "1"
 
 
+def full_merge_cases():
+    """object merges whose destination is exactly full (Size() == Capacity()) and holds removed members, with a source
+    that brings new keys (and one existing key): the merge has to count the removed slots (Size(), not the live count)
+    when it decides to rebuild.  For every merge form of the Value API."""
+    out = []
+    forms = ["apv 0 1 a", "apv 0 1 b", "mrg 0 1 a", "mrg 0 1 b", "apo 0 1 a", "apo 0 1 b", "cop pc o 0 1", "cop pm o 0 1",
+             "apv 0/ka120 1 b", "mrg 0/ka120 1 a"]
+    for cap in (2, 4, 8):
+        for removed in range(1, cap):
+            for new in range(1, removed + 1):
+                for form in forms:
+                    t = "0/ka120" if "0/ka120" in form else "0"
+                    ops = ["set %s/ka%d n%d" % (t, 97 + i, i) for i in range(cap)]
+                    ops += ["rem %s %d %s" % (t, 97 + i, "abc"[i % 3]) for i in range(removed)]
+                    ops += ["set 1/ka%d sa%d" % (110 + j, 65 + j) for j in range(new)]
+                    ops += ["set 1/ka%d T" % (97 + cap - 1)]          # one key the destination already holds
+                    ops += [form, "set %s/ka122 n9" % t, "cmp 0"]
+                    out.append(ops)
+    return out
+
+
 def alias_relation(d, s):
     if d == s:
         return "self"
